@@ -764,6 +764,189 @@ def rule_autorefuse(ctx) -> RuleResult:
 
 
 # ---------------------------------------------------------------------------------------------
+# R-AUTOPARAM (C19): a plan-specific refusal keyed on a USER PARAMETER is anticipated when the plan is chosen automatically.
+# The graph constructor (dask_groupby_agg) and the stated belief in _validate_reindex refuse "method in S and D(param)" for plans S that
+# exclude map-reduce (reindex=True under cohorts / blockwise).  _choose_method never sees that parameter, so the caller must keep the
+# automatic choice away from S whenever D may hold: the guard that lets find_group_cohorts propose a plan has, in every disjunct for
+# `method is None`, a leaf over the same parameter with the opposite polarity; with preferred_method pinned to "map-reduce" no auto path of
+# _choose_method may return a plan in S (order-statistics paths, on which map-reduce is refused too, are outside the clause).
+def _flat(test: ast.AST, op) -> list:
+    return list(test.values) if isinstance(test, ast.BoolOp) and isinstance(test.op, op) else [test]
+
+
+def _plan_refusals(f, mparam: str):
+    """(if-statement, refused plans S, data leaves) for every `if` of f that directly raises and constrains the plan parameter"""
+    par = parents_map(f.node)
+    out = []
+    for st in walk_own(f.node):
+        if not (isinstance(st, ast.If) and any(isinstance(b, ast.Raise) for b in st.body)):
+            continue
+        leaves = _flat(st.test, ast.And)
+        cur = st
+        for a in ancestors(st, par):
+            if isinstance(a, ast.If) and any(cur is b for b in a.body):
+                leaves = _flat(a.test, ast.And) + leaves
+            if isinstance(a, (ast.If, ast.For, ast.While, ast.With, ast.Try)):
+                cur = a
+            if a is f.node:
+                break
+        S, data = None, []
+        for lf in leaves:
+            mc = _method_constraint(lf, mparam)
+            if mc is None and isinstance(lf, ast.BoolOp) and isinstance(lf.op, ast.Or):
+                parts = [[_method_constraint(x, mparam) for x in _flat(d, ast.And)] for d in lf.values]
+                if all(any(c is not None for c in ps) for ps in parts):
+                    mc = set()
+                    for ps in parts:
+                        one = None
+                        for c in ps:
+                            if c is not None:
+                                one = c if one is None else (one & c)
+                        mc |= one
+            if mc is not None:
+                S = mc if S is None else (S & mc)
+            else:
+                data.append(lf)
+        if S and "map-reduce" not in S:
+            out.append((st, S, data))
+    return out
+
+
+def rule_autoparam(ctx) -> RuleResult:
+    res = RuleResult("R-AUTOPARAM", "plan-specific refusals keyed on a user parameter are anticipated by the automatic plan choice", min_instances=2)
+    from ..cfg import CFG
+    from ..dataflow import forward, atom_of
+    gr = ctx.prog.func("core.groupby_reduce")
+    cm = ctx.prog.func("core._choose_method")
+    call = None
+    for n in walk_own(gr.node):
+        if isinstance(n, ast.Assign) and isinstance(n.value, ast.Call) and norm(n.value.func) == "_choose_method":
+            call = n
+    if call is None or len(call.value.args) < 2:
+        raise AnalysisError("groupby_reduce no longer calls _choose_method(method, preferred_method, ...) (anchor)")
+    mvar = norm(call.value.args[0])
+    pref = norm(call.value.args[1])
+    # callees that refuse plans after the choice, with the binding of their parameters to the caller's expressions
+    partials = {}
+    for n in walk_own(gr.node):
+        if isinstance(n, ast.Assign) and isinstance(n.value, ast.Call) and norm(n.value.func) in ("partial", "functools.partial") and n.value.args \
+                and isinstance(n.targets[0], ast.Name):
+            partials[n.targets[0].id] = norm(n.value.args[0])
+    sources = []
+    for n in walk_own(gr.node):
+        if not (isinstance(n, ast.Call) and getattr(n, "lineno", 0) > call.lineno):
+            continue
+        name = partials.get(norm(n.func), norm(n.func))
+        if name not in ("dask_groupby_agg", "_validate_reindex"):
+            continue
+        f = ctx.prog.func(f"core.{name}")
+        bind = {p: a for p, a in zip(f.params, n.args)}
+        bind.update({k.arg: k.value for k in n.keywords if k.arg})
+        mparam = next((p for p, a in bind.items() if norm(a) == mvar), None)
+        if mparam is None:
+            continue
+        sources.append((f, bind, mparam))
+    if not any(f.qualname.endswith("dask_groupby_agg") for f, _, _ in sources):
+        raise AnalysisError("groupby_reduce no longer hands the chosen method to dask_groupby_agg (anchor)")
+    user_params = set(gr.params)
+    # the statement that decides whether find_group_cohorts may propose a plan
+    chooser = None
+    for st in walk_own(gr.node):
+        if isinstance(st, ast.If) and st.lineno < call.lineno and st.orelse:
+            def assigned(block):
+                vals = []
+                for b in block:
+                    for x in ast.walk(b):
+                        if isinstance(x, ast.Assign):
+                            for t in x.targets:
+                                tl = t.elts if isinstance(t, ast.Tuple) else [t]
+                                for i, e in enumerate(tl):
+                                    if isinstance(e, ast.Name) and e.id == pref:
+                                        vals.append(x.value)
+                return vals
+            b, o = assigned(st.body), assigned(st.orelse)
+            if b and o and all(isinstance(v, ast.Constant) and v.value == "map-reduce" for v in o) and not any(isinstance(v, ast.Constant) for v in b):
+                chooser = st
+    if chooser is None:
+        raise AnalysisError(f"groupby_reduce: no 'if …: {pref} = find_group_cohorts(…) else: {pref} = \"map-reduce\"' before _choose_method (anchor)")
+    auto_disjuncts = [_flat(d, ast.And) for d in _flat(chooser.test, ast.Or)]
+    auto_disjuncts = [d for d in auto_disjuncts if any(norm(x) == f"{mvar} is None" for x in d)]
+    if not auto_disjuncts:
+        raise AnalysisError("the preferred-plan guard has no 'method is None' disjunct (anchor)")
+    anticipated_S = set()
+    for f, bind, mparam in sources:
+        for st, S, data in _plan_refusals(f, mparam):
+            for lf in data:
+                roots = {norm(bind[x]).split(".")[0].split("[")[0] for x in names_in(lf) if x in bind}
+                roots = {r for r in roots if r in user_params and r != mvar}
+                if not roots:
+                    continue
+                _, dpol = atom_of(lf)
+                ok = True
+                for d in auto_disjuncts:
+                    if not any((names_in(x) & roots) and atom_of(x)[1] != dpol for x in d):
+                        ok = False
+                res.inst(f"{f.qualname}: refusal '{norm(st.test)[:60]}' (plans {sorted(S)}) on user parameter {sorted(roots)} via '{norm(lf)}': "
+                         f"anticipated by the preferred-plan guard: {ok}", f"{f.qualname}|{sorted(S)}|{norm(lf)}")
+                if ok:
+                    anticipated_S |= S
+                else:
+                    res.report(f"core.groupby_reduce|auto-plan-ignores-user-param|{'+'.join(sorted(roots))}|{'+'.join(sorted(S))}", gr.where(chooser), gr.qualname,
+                               f"with method=None the plan proposed by find_group_cohorts can be {sorted(S)}, which {f.name} refuses when '{norm(lf)}' holds "
+                               f"('{norm(st.test)[:70]}'); that condition is the user's `{'/'.join(sorted(roots))}` and neither _choose_method nor the guard "
+                               f"'{norm(chooser.test)[:70]}' consults it, although method='map-reduce' accepts the same request")
+    if anticipated_S:
+        # with the proposal pinned to map-reduce, no automatic path of _choose_method may still return a refusable plan
+        prm = cm.params[1]
+        seed = frozenset({(f"{prm} == 'map-reduce'", True)} | {(f"{prm} == '{m}'", False) for m in _METHODS - {"map-reduce"}})
+        cfg = CFG(cm)
+        order_stat_atoms = {"agg.chunk == (None,)", "agg.chunk[0] is None"}
+
+        def edge(n, lab, stt):
+            if n.kind == "test" and lab in ("T", "F") and n.ast is not None:
+                at, pol = atom_of(n.ast)
+                if at in order_stat_atoms or at.startswith(f"{prm} == '"):
+                    truth = pol if lab == "T" else not pol
+                    out = set()
+                    for fs in stt:
+                        d = dict(fs)
+                        if at in d and d[at] != truth:
+                            continue
+                        d[at] = truth
+                        out.add(frozenset(d.items()))
+                    return frozenset(out) if out else None
+            return stt
+
+        ins, _ = forward(cfg, frozenset({seed}), lambda n, stt: stt, edge=edge, join=lambda x, y: x | y)
+        for n in cfg.nodes:
+            if n.kind != "return" or n.ast is None or n.ast.value is None:
+                continue
+            v = n.ast.value
+            if isinstance(v, ast.Name) and v.id == cm.params[0]:
+                continue
+            bad = []
+            for fs in ins.get(n.id, frozenset()):
+                facts = dict(fs)
+                if any(facts.get(a) is True for a in order_stat_atoms):
+                    continue
+                if isinstance(v, ast.Constant):
+                    vals = {v.value}
+                elif isinstance(v, ast.Name) and v.id == prm:
+                    vals = {"map-reduce"}
+                else:
+                    vals = set(_METHODS)
+                if vals & anticipated_S:
+                    bad.append(facts)
+            res.inst(f"_choose_method: 'return {norm(v)}' with the proposal pinned to 'map-reduce': feasible path classes returning a plan in {sorted(anticipated_S)}: {len(bad)}",
+                     f"pinned|{norm(v)}")
+            if bad:
+                res.report(f"core._choose_method|pinned-proposal-overridden|{norm(v)}", cm.where(n.ast), cm.qualname,
+                           f"'return {norm(v)}' is reachable with {prm}='map-reduce' (facts {sorted(bad[0].items())[:3]}): the automatic choice can still be a plan in "
+                           f"{sorted(anticipated_S)} that is refused for an explicit reindex=True")
+    return res
+
+
+# ---------------------------------------------------------------------------------------------
 # R-BLOCKLABELS (C16): the labels announced for a block are listed in the order in which the block's reduction yields them.
 # With method='blockwise' (no re-indexing) dask_groupby_agg computes the labels of every block eagerly and concatenates them; the values of
 # the block come from chunk_reduce, which orders its groups by `sort` (sorted, or first appearance).  The eager label list must follow the
